@@ -110,7 +110,9 @@ def directed(ctx):
     # per-snap: the healthy snap completes, so the context is rebuilt for every position; transactional: a failed
     # change restores every snap, so all positions are tried on one system (chain), then the change goes through
     hs.append(hist("d-upd-ps", ctx_1_12(plain=True) + [multi("update-many", [(S1, 2), (S2, 3)])], enum=True, enum_ops=ENUM_OPS))
-    hs.append(hist("d-upd-tx", ctx_1_12(True) + [multi("update-many", [(S1, 2), (S2, 3)], txn=True)], enum=True, enum_ops=ENUM_OPS,
+    # (the snap whose refresh garbage-collects comes first: once a discard has completed before an abort the revision is
+    # gone for the attempts that follow)
+    hs.append(hist("d-upd-tx", ctx_1_12(True) + [multi("update-many", [(S2, 3), (S1, 2)], txn=True)], enum=True, enum_ops=ENUM_OPS,
                    chain=True))
     hs.append(hist("d-inst-tx", [multi("install-many", [(S1, 1), (S2, 2)], txn=True)], on_classic=True, enum=True,
                    enum_ops=ENUM_OPS, chain=True))
